@@ -235,6 +235,19 @@ def job_wire(a):
     p.sendMessageFrame(b"xyz" * 50)
     p.endMessage()
     p.sendPreparedMessage(p.factory.prepareMessage(b"prepared" * 20, True))
+    extra = []
+    # every small length incl. the empty payload, through sendMessage and as prepared message
+    for L in (0, 1, 2, 3, 4, 5, 7, 8, 125, 126):
+        body = bytes((37 * i + L) & 0xFF for i in range(L))
+        p.sendMessage(body, True)
+        p.sendPreparedMessage(p.factory.prepareMessage(body, True))
+        extra += [body, body]
+    # sendFrame(payload_len=..): the payload pattern repeated / cut to the requested length
+    for plen in (1, 2, 3, 4, 5):
+        pat = bytes((91 * i + plen) & 0xFF for i in range(plen))
+        for want_len in range(0, 2 * plen + 4):
+            p.sendFrame(opcode=2, payload=pat, payload_len=want_len)
+            extra.append((pat * (want_len // plen + 1))[:want_len])
     p.sendPing(b"pingpayload")
     peer_mask = b"\x09\x08\x07\x06" if role == "server" else None
     ep.feed(F.encode(9, b"answer-me", mask=peer_mask))       # provokes a pong
@@ -269,7 +282,7 @@ def job_wire(a):
             if wire_payload != xor(f.key, f.payload):
                 bad("payload-not-xor", "opcode %d len %d" % (f.opcode, f.length))
     data = b"".join(f.payload for f in frames if f.opcode in (0, 1, 2))
-    want = b"hello" + big + b"abcde" + b"xyz" * 50 + b"prepared" * 20
+    want = b"hello" + big + b"abcde" + b"xyz" * 50 + b"prepared" * 20 + b"".join(extra)
     if data != want:
         bad("content", "clear payloads differ from what was sent")
     return {"evals": n, "viol": viol, "stats": {"wire_frames_" + role: n, "nontrivial": n}}
